@@ -42,8 +42,12 @@ def gen_sset(rnd, ncats):
         if ncats > 1 and c == 0 and nf == 0:
             nf = 1
         for _ in range(nf):
-            ar = rnd.choice([1, 2, 2, 2, 3, 4])
+            # gene::args keeps 4 indices inline (small_vector<_, 4>): arities 5 and 6 cross that boundary
+            ar = rnd.choice([1, 2, 2, 2, 3, 4, 4, 5, 6])
             syms.append((c, "f", rnd.choice([1.0, 1.0, 2.0, 0.5]), [rnd.randrange(ncats) for _ in range(ar)]))
+        if rnd.random() < 0.25:
+            c0 = rnd.randrange(ncats)          # the shipped 5-argument primitive real::ifb (FIFB)
+            syms.append((c, "b", 1.0, [c0, c0, c0, c, c]))
     rnd.shuffle(syms)
     return syms
 
@@ -57,7 +61,7 @@ def sset_tokens(ncats, syms):
 
 def gen_replace_gene(rnd, syms, R, patch, idx, cat):
     """a gene compatible with locus (idx, cat)"""
-    cands = [i for i, s in enumerate(syms) if s[0] == cat and (s[1] != "f" or idx < R - patch)]
+    cands = [i for i, s in enumerate(syms) if s[0] == cat and (s[1] not in "fb" or idx < R - patch)]
     if not cands:
         return None
     sid = rnd.choice(cands)
